@@ -72,6 +72,16 @@ class SetterModel(window.HandleModel):
             return [('', ('cond', ('fsc', subj)), [])]
         if base == 'as_bytes' and isinstance(a0, tuple) and a0 and a0[0] == 'comp':
             return [('', ('compbytes', a0[1]), [])]
+        # bytes.get(i) == Some(&b'c')  is  "the buffer text from i on starts with c" (false beyond the end): the same atom as starts_with
+        if name.endswith('<impl [T]>::get') and len(args) == 2 and isinstance(a0, tuple) and a0[0] == 'bytes' and a0[1] == 'W' and isinstance(args[1], Aff):
+            return [('', ('optbyte', args[1]), [])]
+        if re.search(r'Option<T> as std::cmp::PartialEq>::(eq|ne)$', name) and len(args) == 2:
+            x, y = args
+            if isinstance(y, tuple) and y and y[0] == 'optbyte':
+                x, y = y, x
+            if isinstance(x, tuple) and x and x[0] == 'optbyte' and isinstance(y, tuple) and y[:3] == ('adt', 'std::option::Option', 1) and isinstance(y[3][0], Aff) and y[3][0].is_const():
+                c = ('cond', ('w_starts', x[1], bytes([y[3][0].c])))
+                return [('', c if base == 'eq' else ('cond', ('not', c[1])), [])]
         if base == 'starts_with' and len(args) == 2 and isinstance(args[1], tuple) and args[1][0] == 'lit' and isinstance(a0, tuple) and a0[0] == 'bytes':
             if a0[1].startswith('W['):
                 return [('', ('cond', ('w_starts', a0[4], args[1][1])), [])]
